@@ -32,6 +32,14 @@ TreeB == [
   lo  |-> [g |-> 0, t1 |-> 1, a2 |-> 2, a3 |-> 3, a4 |-> 4, z2 |-> 2, z3 |-> 3, y2 |-> 2, w4 |-> 4, v2 |-> 2, v3 |-> 3],
   hi  |-> [g |-> 0, t1 |-> 1, a2 |-> 2, a3 |-> 3, a4 |-> 4, z2 |-> 2, z3 |-> 3, y2 |-> 2, w4 |-> 4, v2 |-> 2, v3 |-> 3]]
 
+\* quick tier: the same ingredients on 8 blocks
+TreeBq == [
+  par |-> [g |-> "g", t1 |-> "g", a2 |-> "t1", a3 |-> "a2", z2 |-> "t1", y2 |-> "t1", w3 |-> "a2", v2 |-> "t1"],
+  h   |-> [g |-> 0, t1 |-> 1, a2 |-> 2, a3 |-> 3, z2 |-> 2, y2 |-> 2, w3 |-> 3, v2 |-> 2],
+  cls |-> [g |-> "ok", t1 |-> "ok", a2 |-> "ok", a3 |-> "ok", z2 |-> "bad", y2 |-> "hdr", w3 |-> "bad", v2 |-> "ok"],
+  lo  |-> [g |-> 0, t1 |-> 1, a2 |-> 2, a3 |-> 3, z2 |-> 2, y2 |-> 2, w3 |-> 3, v2 |-> 2],
+  hi  |-> [g |-> 0, t1 |-> 1, a2 |-> 2, a3 |-> 3, z2 |-> 2, y2 |-> 2, w3 |-> 3, v2 |-> 2]]
+
 \* ---- node sets, topologies, assignments
 H2 == {"n1", "n2"}
 H3 == {"n1", "n2", "n3"}
@@ -71,6 +79,7 @@ EdgesB == {<<"v", "p">>, <<"z", "v">>}
 BaseB == [n \in HB |-> "g"]
 CapB == [n \in HB |-> 2]
 TipsB == {f \in [HB -> {"g", "t1", "a2", "a4"}] : f["p"] = "a4"}
+TipsBq == {f \in [HB -> {"g", "t1", "a3"}] : f["p"] = "a3" /\ f["v"] # "a3"}
 
 \* ---- edge export (Leg R): printed once per explored transition, evaluated as ACTION_CONSTRAINT.
 \* The complete state is printed (the replay driver computes quiescent macro-steps on it and the Go
